@@ -44,8 +44,10 @@ def run_case(ctx):
     src = ctx.src
     common.draw_env(ctx)
     common.prelude(ctx)
-    m = world.gen_world(src, scale=("hugebox", "manyboxes", "farcorner", "manyfields"))
-    path, _ = common.materialise(ctx, m)
+    m = world.gen_world(src, scale=("hugebox", "manyboxes", "farcorner", "manyfields"), lowprec_ok=True)
+    from amr_kitchen import PlotfileCooker as _PC
+    path, hcwd, _abs, hmode = common.history_materialise(
+        ctx, m, lambda p: run_tool(ctx, lambda: (list(_PC(p)[0][0]), _PC(p)[0][0][:])))
     o = common.open_cooker(ctx, path)
     if not o.ok:
         raise Violation({"property": ID, "oracle": "open", **o.exc_sig()},
